@@ -15,4 +15,8 @@ pub mod conv8;
 pub mod wrap8;
 pub mod codec;
 pub mod transc;
+pub mod widediv;
+pub mod selftest;
+pub mod parse;
+pub mod display;
 pub mod float;
